@@ -15,6 +15,7 @@ import PyodaModel.Codec.Prim
 import PyodaModel.Codec.Zone
 import PyodaModel.Codec.Tail
 import PyodaModel.Codec.Stream
+import PyodaModel.Codec.Canonical
 
 namespace Pyoda.Codec
 
@@ -342,6 +343,14 @@ def handleStream (toks : List String) : Option String :=
       let b ← parseHex? h
       let l ← faults.mapM (fun f => (applyFault b f).map (fun x => showUse (loadAndUse x)))
       some (" ".intercalate l)
+  | "zone.canon" :: pf :: fields => do
+      let pool ← parsePoolField? pf
+      let fs ← fields.mapM parseHex?
+      match pool with
+      | .error e => some ("!" ++ e.name)
+      | .ok pool =>
+        some (" ".intercalate (fs.map fun f =>
+          showR (fun (o : Option Bool) => match o with | none => "fixed" | some b => showBool b) (canonicalZoneField pool f)))
   | "zone.create" :: pf :: fields => do
       let pool ← parsePoolField? pf
       let fs ← fields.mapM parseHex?
